@@ -104,14 +104,14 @@ def _model(rng):
     pkg = rng.choice(["com.example.app", "org.x", "a.b.c.d"])
     mo = {"package": pkg, "versionCode": rng.randint(1, 99999), "versionName": rng.choice(["1.0", "2.3.4-beta", "7"]),
           "perms": [], "components": {"activity": [], "service": [], "receiver": [], "provider": []}, "main": [],
-          "min": rng.choice([None, 14, 21]), "target": rng.choice([None, 26, 33]), "max": rng.choice([None, 34]),
-          "features": [], "libraries": []}
+          "min": rng.choice([None, 14, 21, ("hex", 21), "Q"]), "target": rng.choice([None, 26, 33, ("hex", 28), "Tiramisu"]),
+          "max": rng.choice([None, 34]), "features": [], "libraries": []}
     for _ in range(rng.randint(0, 5)):
         # permission names are opaque strings (PackageParser reads them verbatim): dotted, dot-less and leading-dot names,
         # and the same name requested by several elements
         mo["perms"].append((rng.choice(["android.permission.INTERNET", "android.permission.CAMERA", "com.x.P", "android.permission.READ_SMS",
                                         "SYNC_DATA", ".LOCAL", "SYNC_DATA", pkg + ".SYNC_DATA"]),
-                            rng.choice([None, None, 18, 22])))
+                            rng.choice([None, None, 18, 22]), rng.choice(["uses-permission", "uses-permission", "uses-permission-sdk-23"])))
     for kind in mo["components"]:
         for _ in range(rng.randint(0, 3)):
             nm = rng.choice([".Main", "Short", pkg + ".Full", "other.pkg.Cls", ".sub.Deep"]) + str(rng.randint(0, 9))
@@ -138,22 +138,25 @@ def _serialise(mo, rng):
     root = W.Elem("manifest", attrs=[W.Attr("package", ("str", mo["package"])), _attr("versionCode", mo["versionCode"], 0x0101021B),
                                      _attr("versionName", mo["versionName"], 0x0101021C)])
     sdk = []
-    if mo["min"] is not None:
-        sdk.append(_attr("minSdkVersion", mo["min"], 0x0101020C))
-    if mo["target"] is not None:
-        sdk.append(_attr("targetSdkVersion", mo["target"], 0x01010270))
+    for nm, v, rid in (("minSdkVersion", mo["min"], 0x0101020C), ("targetSdkVersion", mo["target"], 0x01010270)):
+        if isinstance(v, tuple):                  # the integer stored with the hexadecimal data type
+            a_v = _attr(nm, v[1], rid)
+            a_v.value = v
+            sdk.append(a_v)
+        elif v is not None:                       # decimal integer, or a string (codename of a preview release)
+            sdk.append(_attr(nm, v, rid))
     if mo["max"] is not None:
         sdk.append(_attr("maxSdkVersion", mo["max"], 0x01010271))
     if sdk:
         root.children.append(W.Elem("uses-sdk", attrs=sdk))
-    for p, mx in mo["perms"]:
+    for p, mx, tag in mo["perms"]:
         at = [_attr("name", p, 0x01010003)]
         if mx is not None:
             a_mx = _attr("maxSdkVersion", mx, 0x01010271)
             if rng.random() < 0.4:
                 a_mx.value = ("hex", mx)          # the same integer stored with the hexadecimal data type
             at.append(a_mx)
-        root.children.append(W.Elem("uses-permission", attrs=at))
+        root.children.append(W.Elem(tag, attrs=at))
     for f in mo["features"]:
         root.children.append(W.Elem("uses-feature", attrs=[_attr("name", f, 0x01010003)]))
     app = W.Elem("application", attrs=[_attr("label", "App", 0x01010001)])
@@ -207,12 +210,12 @@ def generated_manifests(U):
     pkg = mo["package"]
     U.ensures("package, version code and name", (a.get_package(), a.get_androidversion_code(), a.get_androidversion_name()) ==
               (pkg, str(mo["versionCode"]), mo["versionName"]), got=(a.get_package(), a.get_androidversion_code(), a.get_androidversion_name()))
-    want_p = sorted(set(p for p, _ in mo["perms"]))
+    want_p = sorted(set(p for p, _, _ in mo["perms"]))
     U.ensures("requested permissions as written, without duplicates", sorted(a.get_permissions()) == want_p and len(a.get_permissions()) == len(want_p),
               got=sorted(a.get_permissions()), want=want_p)
     key = lambda t: (t[0], -1 if t[1] is None else t[1])
     U.ensures("each uses-permission with its maxSdkVersion", sorted((tuple(x) for x in a.uses_permissions), key=key) ==
-              sorted(((p, mx) for p, mx in mo["perms"]), key=key), got=a.uses_permissions)
+              sorted(((p, mx) for p, mx, _ in mo["perms"]), key=key), got=a.uses_permissions)
     for kind, getter in (("activity", a.get_activities), ("service", a.get_services), ("receiver", a.get_receivers), ("provider", a.get_providers)):
         want = [_complete(pkg, n) for n, _ in mo["components"][kind]]
         U.ensures("%s names completed with the package name" % kind, sorted(getter()) == sorted(want), got=sorted(getter()), want=sorted(want))
@@ -228,10 +231,18 @@ def generated_manifests(U):
               o2.ok and a2.get_main_activity() == got_main, got=got_main, qualified=a2.get_main_activity() if o2.ok else repr(o2.exc))
     U.ensures("all launcher activities are reported", sorted(_complete(pkg, x) for x in a.get_main_activities()) == sorted(set(mains)),
               got=sorted(a.get_main_activities()))
-    s = lambda v: None if v is None else str(v)
-    U.ensures("SDK versions", (a.get_min_sdk_version(), a.get_target_sdk_version(), a.get_max_sdk_version()) ==
-              (s(mo["min"]), s(mo["target"]), s(mo["max"])), got=(a.get_min_sdk_version(), a.get_target_sdk_version(), a.get_max_sdk_version()))
-    eff = mo["target"] or mo["min"] or 1
-    U.ensures("effective target SDK", a.get_effective_target_sdk_version() == eff, got=a.get_effective_target_sdk_version())
+    # a version is reported as the attribute's string: the decimal number, the 0x... text of a hexadecimal integer, or the codename
+    def same(got, v):
+        if isinstance(v, tuple):
+            return isinstance(got, str) and got.lower().startswith("0x") and int(got, 16) == v[1]
+        return got == (None if v is None else str(v))
+    got_v = (a.get_min_sdk_version(), a.get_target_sdk_version(), a.get_max_sdk_version())
+    U.ensures("SDK versions", same(got_v[0], mo["min"]) and same(got_v[1], mo["target"]) and same(got_v[2], mo["max"]), got=got_v,
+              want=(mo["min"], mo["target"], mo["max"]))
+    num = lambda v: v[1] if isinstance(v, tuple) else (v if isinstance(v, int) else None)
+    # Android: the target defaults to the minimum version; a codename is not a number (androguard answers 1 then, as for "not set")
+    first = mo["target"] if mo["target"] is not None else mo["min"]
+    eff = num(first) or 1
+    U.ensures("effective target SDK", a.get_effective_target_sdk_version() == eff, got=a.get_effective_target_sdk_version(), want=eff)
     U.ensures("features and libraries", sorted(a.get_features()) == sorted(mo["features"]) and sorted(a.get_libraries()) == sorted(mo["libraries"]),
               got=(list(a.get_features()), list(a.get_libraries())))
